@@ -89,7 +89,7 @@ Section Verify.
     vr_code r = (match vr_mismatch r, vr_new r, vr_missing r with
                  | _ :: _, _, _ => 11 | [], _ :: _, _ => 21 | [], [], _ :: _ => 10 | [], [], [] => 0 end)%Z.
   Proof.
-    unfold verify_result, verify_like. destruct (load C cdig t) as [hs|e]; [|discriminate].
+    unfold verify_result, verify_like, verify_core. destruct (load C cdig t) as [hs|e]; [|discriminate].
     destruct (lh_gens (root_hist hs)) as [|g0 gs] eqn:Eg; [discriminate|]. cbn [snd o_outcome o_missing o_mismatch o_new].
     intros [= <-]. cbn [vr_code vr_mismatch vr_new vr_missing].
     set (vs := fold_left _ _ _). set (miss := sorted_paths _).
@@ -103,7 +103,7 @@ Section Verify.
   Theorem diff_exit_selection t ipats ifile r : verify_result true t ipats ifile = Some r ->
     vr_code r = (match vr_missing r, vr_new r with _ :: _, _ => 10 | [], _ :: _ => 21 | [], [] => 0 end)%Z.
   Proof.
-    unfold verify_result, verify_like. destruct (load C cdig t) as [hs|e]; [|discriminate].
+    unfold verify_result, verify_like, verify_core. destruct (load C cdig t) as [hs|e]; [|discriminate].
     destruct (lh_gens (root_hist hs)) as [|g0 gs] eqn:Eg; [discriminate|]. cbn [snd o_outcome o_missing o_mismatch o_new].
     intros [= <-]. cbn [vr_code vr_mismatch vr_new vr_missing].
     set (vs := fold_left _ _ _). set (miss := sorted_paths _).
@@ -122,7 +122,7 @@ Section Verify.
        exists c e, In (p, c) files /\ reference hs p = Some e /\ e_digest e <> digest_text Hb (e_fmt e) c) /\
     (forall p, In p (o_new o) <-> exists c, In (p, c) files /\ reference hs p = None).
   Proof.
-    intros Hl Hg. cbn zeta. unfold verify_like. rewrite Hl. destruct (lh_gens (root_hist hs)) as [|g0 gs] eqn:Eg; [congruence|].
+    intros Hl Hg. cbn zeta. unfold verify_like, verify_core. rewrite Hl. destruct (lh_gens (root_hist hs)) as [|g0 gs] eqn:Eg; [congruence|].
     cbn [snd o_mismatch o_new].
     destruct (verify_file_fold hs (negb false) None
                 (ev_files (events matches C (set_patterns (latest_patterns (g0 :: gs)) ipats (pattern_file_lines ifile)) [] t))
@@ -142,6 +142,56 @@ Section Verify.
         unfold classify. cbn [negb fst snd]. rewrite Hr. reflexivity.
   Qed.
 
+  (* ---- verify -pl: the same statements for the packing list loaded as a one-generation history ---- *)
+  Theorem verify_pl_total t pl ip ifl : exists c, o_outcome (snd (verify_pl Hb matches C t pl ip ifl)) = Exit c.
+  Proof. unfold verify_pl, verify_core. destruct pl as [g|]; cbn; eauto. Qed.
+  Theorem verify_pl_leaves_tree t pl ip ifl :
+    fst (verify_pl Hb matches C t pl ip ifl) = t /\ o_ops (snd (verify_pl Hb matches C t pl ip ifl)) = [] /\
+    o_written (snd (verify_pl Hb matches C t pl ip ifl)) = [].
+  Proof. unfold verify_pl, verify_core. destruct pl as [g|]; cbn; auto. Qed.
+  Theorem verify_pl_exit_selection t g ip ifl :
+    let o := snd (verify_pl Hb matches C t (Some g) ip ifl) in
+    o_outcome o = Exit (match o_mismatch o, o_new o, o_missing o with
+                        | _ :: _, _, _ => 11 | [], _ :: _, _ => 21 | [], [], _ :: _ => 10 | [], [], [] => 0 end)%Z.
+  Proof.
+    cbn zeta. unfold verify_pl, verify_core. cbn [root_hist pl_history lh_gens last]. cbn [snd o_outcome o_missing o_mismatch o_new].
+    set (vs := fold_left _ _ _). set (miss := sorted_paths _).
+    destruct (vs_bad vs) as [|b bs] eqn:Eb.
+    - change (sorted_paths []) with (@nil path).
+      destruct (vs_new vs) as [|n ns] eqn:En.
+      + change (sorted_paths []) with (@nil path). destruct miss; reflexivity.
+      + destruct (sorted_paths (n :: ns)) eqn:Es; [apply (proj1 (sorted_paths_nil _)) in Es; discriminate Es|reflexivity].
+    - destruct (sorted_paths (b :: bs)) eqn:Es; [apply (proj1 (sorted_paths_nil _)) in Es; discriminate Es|reflexivity].
+  Qed.
+  (* what is reported against a packing list: altered = bytes no longer hash to the first `original` digest the packing
+     list holds for the path (in that entry's format); new = no such entry *)
+  Theorem verify_pl_reports t g ip ifl :
+    let hs := [pl_history g] in
+    let spec := set_patterns (g_patterns g) ip (pattern_file_lines ifl) in
+    let files := ev_files (events matches C spec [] t) in
+    let o := snd (verify_pl Hb matches C t (Some g) ip ifl) in
+    (forall p, In p (o_mismatch o) <->
+       exists c e, In (p, c) files /\ reference hs p = Some e /\ e_digest e <> digest_text Hb (e_fmt e) c) /\
+    (forall p, In p (o_new o) <-> exists c, In (p, c) files /\ reference hs p = None).
+  Proof.
+    cbn zeta. unfold verify_pl, verify_core. cbn [root_hist pl_history lh_gens last latest_patterns rev app g_patterns].
+    cbn [snd o_mismatch o_new].
+    match goal with |- context [fold_left (verify_file Hb ?hs ?h ?o) ?l ?a] => destruct (verify_file_fold hs h o l a) as [H1 H2] end.
+    split; intros p; rewrite sorted_paths_In.
+    - rewrite H2. cbn [vs_bad app negb]. rewrite in_map_iff. split.
+      + intros [[p0 c] [<- Hin]]. apply filter_In in Hin. destruct Hin as [Hin Hc]. unfold classify in Hc. cbn [negb fst snd] in Hc.
+        destruct (reference _ p0) as [e|] eqn:Er; [|discriminate].
+        destruct (text_eqb_spec (e_digest e) (digest_text Hb (e_fmt e) c)); [discriminate|].
+        exists c, e. auto.
+      + intros [c [e [Hin [Hr Hd]]]]. exists (p, c). split; [reflexivity|]. apply filter_In. split; [exact Hin|].
+        unfold classify. cbn [negb fst snd]. rewrite Hr. destruct (text_eqb_spec (e_digest e) (digest_text Hb (e_fmt e) c)); [contradiction|reflexivity].
+    - rewrite H1. cbn [vs_new app negb]. rewrite in_map_iff. split.
+      + intros [[p0 c] [<- Hin]]. apply filter_In in Hin. destruct Hin as [Hin Hc]. unfold classify in Hc. cbn [negb fst snd] in Hc.
+        destruct (reference _ p0) as [e|] eqn:Er; [destruct (text_eqb _ _); discriminate|]. exists c. auto.
+      + intros [c [Hin Hr]]. exists (p, c). split; [reflexivity|]. apply filter_In. split; [exact Hin|].
+        unfold classify. cbn [negb fst snd]. rewrite Hr. reflexivity.
+  Qed.
+
   (* ---- C14: the reading commands return the tree they were given ---- *)
   Theorem readers_leave_tree t :
     (forall d only ip ifl, fst (verify_like Hb matches C cdig d t only ip ifl) = t) /\
@@ -149,7 +199,7 @@ Section Verify.
     fst (info C cdig t) = t /\ (forall file, fst (info_sf C cdig t file) = t) /\
     (forall ip ifl, fst (flatten C cdig t ip ifl) = t).
   Proof.
-    repeat split; intros; unfold verify_like, verify_dh, info, info_sf, flatten;
+    repeat split; intros; unfold verify_like, verify_core, verify_dh, info, info_sf, flatten;
       destruct (load C cdig t) as [hs|e]; try reflexivity; destruct (lh_gens (root_hist hs)); reflexivity.
   Qed.
   Theorem readers_write_nothing t :
@@ -159,7 +209,7 @@ Section Verify.
     (forall file, o_ops (snd (info_sf C cdig t file)) = [] /\ o_written (snd (info_sf C cdig t file)) = []) /\
     (forall ip ifl, o_ops (snd (flatten C cdig t ip ifl)) = []).
   Proof.
-    repeat split; intros; unfold verify_like, verify_dh, info, info_sf, flatten;
+    repeat split; intros; unfold verify_like, verify_core, verify_dh, info, info_sf, flatten;
       destruct (load C cdig t) as [hs|e]; try reflexivity; destruct (lh_gens (root_hist hs)); reflexivity.
   Qed.
 
@@ -339,7 +389,7 @@ Section Consistent.
       destruct (proj1 (Hnew p) (or_introl eq_refl)) as [c [Hin Hr]].
       destruct (Hfiles p c Hin) as [e' [Hr' _]]. congruence. }
     unfold verify_result. rewrite Hl. destruct (lh_gens (root_hist hs)) as [|g0 gs] eqn:Eg; [congruence|].
-    unfold verify_like in *. rewrite Hl, Eg in *. cbn [snd o_outcome o_missing o_mismatch o_new] in *.
+    unfold verify_like, verify_core in *. rewrite Hl, Eg in *. cbn [snd o_outcome o_missing o_mismatch o_new] in *.
     rewrite Hmiss. change (sorted_paths []) with (@nil path).
     apply (proj1 (sorted_paths_nil _)) in Eb. apply (proj1 (sorted_paths_nil _)) in En.
     split.
@@ -418,7 +468,7 @@ Section Detection.
     intros Hl. cbn zeta. intros Hexp Hnv Hign Hv. pose proof (verify_exit_selection Hb matches C cdig t ipats ifile r Hv) as Hcode.
     assert (Hg : lh_gens (root_hist hs) <> []) by (intros E; unfold verify_result in Hv; rewrite Hl, E in Hv; discriminate).
     assert (Hq : In q (o_missing (snd (verify_like Hb matches C cdig false t None ipats ifile)))).
-    { unfold verify_like. rewrite Hl. destruct (lh_gens (root_hist hs)) as [|g0 gs] eqn:Eg; [congruence|]. cbn [snd o_missing]. apply sorted_paths_In. unfold missing. apply filter_In. split.
+    { unfold verify_like, verify_core. rewrite Hl. destruct (lh_gens (root_hist hs)) as [|g0 gs] eqn:Eg; [congruence|]. cbn [snd o_missing]. apply sorted_paths_In. unfold missing. apply filter_In. split.
       - unfold diff_paths. apply filter_In. split; [exact Hexp|]. apply negb_true_iff.
         destruct (mem_path q (visited (events matches C (set_patterns (latest_patterns (g0 :: gs)) ipats (pattern_file_lines ifile)) [] t))) eqn:Em; [|reflexivity].
         apply mem_path_In in Em. contradiction.
@@ -436,7 +486,7 @@ Section Detection.
     forall p, In p (o_new (snd (verify_like Hb matches C cdig true t None ipats ifile))) <->
               exists c, In (p, c) (ev_files (events matches C spec [] t)) /\ reference hs p = None.
   Proof.
-    intros Hl Hg. cbn zeta. unfold verify_like. rewrite Hl. destruct (lh_gens (root_hist hs)) as [|g0 gs] eqn:Eg; [congruence|].
+    intros Hl Hg. cbn zeta. unfold verify_like, verify_core. rewrite Hl. destruct (lh_gens (root_hist hs)) as [|g0 gs] eqn:Eg; [congruence|].
     cbn [snd o_new]. intros p. rewrite sorted_paths_In.
     destruct (verify_file_fold Hb hs (negb true) None
                 (ev_files (events matches C (set_patterns (latest_patterns (g0 :: gs)) ipats (pattern_file_lines ifile)) [] t))
@@ -473,7 +523,7 @@ Section Detection.
     intros Hl. cbn zeta. intros Hexp Hnv Hign Hv. pose proof (diff_exit_selection Hb matches C cdig t ipats ifile r Hv) as Hcode.
     assert (Hg : lh_gens (root_hist hs) <> []) by (intros E; unfold verify_result in Hv; rewrite Hl, E in Hv; discriminate).
     assert (Hq : In q (o_missing (snd (verify_like Hb matches C cdig true t None ipats ifile)))).
-    { unfold verify_like. rewrite Hl. destruct (lh_gens (root_hist hs)) as [|g0 gs] eqn:Eg; [congruence|]. cbn [snd o_missing]. apply sorted_paths_In. unfold missing. apply filter_In. split.
+    { unfold verify_like, verify_core. rewrite Hl. destruct (lh_gens (root_hist hs)) as [|g0 gs] eqn:Eg; [congruence|]. cbn [snd o_missing]. apply sorted_paths_In. unfold missing. apply filter_In. split.
       - unfold diff_paths. apply filter_In. split; [exact Hexp|]. apply negb_true_iff.
         destruct (mem_path q (visited (events matches C (set_patterns (latest_patterns (g0 :: gs)) ipats (pattern_file_lines ifile)) [] t))) eqn:Em; [|reflexivity].
         apply mem_path_In in Em. contradiction.
